@@ -190,11 +190,11 @@ where
         for (key, cache) in self.cache.iter() {
             let key_bytes = key.encode_vec();
             let cache_bytes = cache.encode_vec();
-            if cache.is_old(block_number) {
-                #[cfg(brc20_verif)]
-                crate::verif::persist(&self.verif_name, "hist", "del")?;
-                self.cache_db.delete(&key_bytes)?;
-            } else {
+            // The history row goes first, so that a crash before the latest row can be repaired by a reorg -
+            // except when the history is dropped: then the latest row has to be in place before the
+            // history that could still repair it disappears (see below).
+            let history_is_old = cache.is_old(block_number);
+            if !history_is_old {
                 #[cfg(brc20_verif)]
                 crate::verif::persist(&self.verif_name, "hist", "put")?;
                 self.cache_db.put(&key_bytes, &cache_bytes)?;
@@ -208,6 +208,12 @@ where
                 #[cfg(brc20_verif)]
                 crate::verif::persist(&self.verif_name, "latest", "del")?;
                 self.db.delete(&key_bytes)?;
+            }
+
+            if history_is_old {
+                #[cfg(brc20_verif)]
+                crate::verif::persist(&self.verif_name, "hist", "del")?;
+                self.cache_db.delete(&key_bytes)?;
             }
         }
 
